@@ -530,6 +530,9 @@ func execute(t *testing.T, prop string, p *Plan) *core.Result {
 	r := &run{p: p, connInfo: map[net.Conn]*connInfo{}, connDial: map[int]*dialRec{}, connPlain: map[int]*plainRec{},
 		tlsEP: map[netip.AddrPort]*endpoint{}, plainEP: map[netip.AddrPort]*endpoint{}}
 	r.net = newNetModel(p.Nodes)
+	if p.StaticECH && len(p.Nodes) > 0 && p.Nodes[0].ECH != nil {
+		_, _, r.net.static = echMaterial(p.Nodes[0].ECH)
+	}
 	obs := make([]*reqObs, len(p.Reqs))
 	var leakedLib, leakedOther []string
 	var srv *simdoh.Server
@@ -609,6 +612,12 @@ func execute(t *testing.T, prop string, p *Plan) *core.Result {
 		tr := ech.NewTransport()
 		tr.Resolver = resolver
 		tr.TLSConfig = &tls.Config{RootCAs: pk.pool, NextProtos: append([]string(nil), p.ClientALPN...)}
+		if p.StaticECH && len(p.Nodes) > 0 && p.Nodes[0].ECH != nil {
+			_, _, list := echMaterial(p.Nodes[0].ECH)
+			tr.TLSConfig.EncryptedClientHelloConfigList = list
+			tr.Dialer.RequireECH = true
+			res.Probe("static_ech_list_and_require_ech")
+		}
 		tr.Dialer.DialFunc = func(ctx context.Context, network, addr string, tc *tls.Config) (c *tls.Conn, err error) {
 			if pn, msg, site := core.Guard(func() { c, err = r.dialTLS(ctx, network, addr, tc) }); pn {
 				res.Harness = "panic in the simulated dialer: " + msg + " @" + site
